@@ -701,7 +701,11 @@ pub fn recover(
 
     // timed out and failed packets
     let packets: Vec<IBCTransfer> = if selected_packets.is_some() {
-        let selected_packets = selected_packets.unwrap();
+        let mut selected_packets = selected_packets.unwrap();
+        // Each packet can be recovered at most once: ignore repeated ids so
+        // that its amount is not added to the transfer more than once.
+        selected_packets.sort_unstable();
+        selected_packets.dedup();
         let mut packets: Vec<IBCTransfer> = vec![];
         for packet_id in selected_packets {
             let packet = INFLIGHT_PACKETS.load(deps.storage, packet_id)?;
